@@ -183,9 +183,14 @@ def rename_back(fn, ref_fn):
     if any(g in used for g in gone):
         return
     mapping = dict(zip(fresh, gone))
-    for n in ast.walk(fn):
-        if isinstance(n, ast.Name) and n.id in mapping:
-            n.id = mapping[n.id]
+    # only the function's own variables are renamed: an occurrence inside a nested lambda / def that has a parameter of the
+    # same name belongs to that inner scope
+    todo = []
+    for old_, new_ in mapping.items():
+        for n in normal.scoped_names(fn, old_):
+            todo.append((n, new_))
+    for n, new_ in todo:
+        n.id = new_
 
 
 def restyle_calls(fn, ref_fn, sigs):
